@@ -109,4 +109,23 @@ static inline _Bool sv_value_is(struct uset_var_valuep s, struct umap_var_valuep
   }
   return 1;
 }
+/* the domain is exactly vals[i] -> lits[i] */
+static inline _Bool sv_dom_of_pairs(struct umap_var_valuep_lit m, struct vec_lit lits, struct vec_var_valuep vals)
+{
+  if (m.n != vals.n) return 0;
+  for (U_t k = 0; k < XT_DOM; k++)
+  {
+    if (k < m.n && !sv_in_items(vals, m.e[k].first)) return 0;
+    if (k < vals.n && !(sv_has(m, vals.e[k]) && sv_lit_of(m, vals.e[k]).x == lits.e[k].x)) return 0;
+  }
+  return 1;
+}
+/* the object variable id is recorded for propositional variable bv */
+static inline _Bool sv_contained(struct umap_U_set_U m, U_t bv, U_t id)
+{
+  for (U_t k = 0; k < XT_DOM + 1; k++)
+    if (k < m.n && m.e[k].first == bv)
+      for (U_t j = 0; j < 2; j++) if (j < m.e[k].second.n && m.e[k].second.e[j] == id) return 1;
+  return 0;
+}
 #endif
